@@ -312,7 +312,7 @@ class History(Facet):
                     continue
                 clash = any(l in model for l in new_letters)
                 new_dims = [mkdim(l, s["clash"]) if l in model else base_dbl[l] for l in new_letters]
-                call = lambda: ds.expand_by(new_dims, inplace=s["inplace"])
+                call = (lambda: ds.extend(new_dims, inplace=s["inplace"])) if s["j"] % 2 else (lambda: ds.expand_by(new_dims, inplace=s["inplace"]))
                 if clash:
                     require(raises(call), "expand-accepts-clash", f"{new_letters} into {model}")
                     n_fail += 1
@@ -355,7 +355,7 @@ class History(Facet):
             elif op == "drop":
                 letter = LET6[s["k"]]
                 k_ = ALPHA[letter]["name"] if s["byname"] else letter
-                call = lambda: ds.drop(k_, inplace=s["inplace"])
+                call = (lambda: ds.remove(k_, inplace=s["inplace"])) if s["clash"] else (lambda: ds.drop(k_, inplace=s["inplace"]))
                 if letter not in model or (s["byname"] and dbl[letter].name != k_):
                     if letter in model:
                         continue
